@@ -44,6 +44,10 @@ type config struct {
 	Ends       [][]int `json:"ends"`          // admissible end kinds per archetype
 	SymDet     bool    `json:"sym_det"`       // detectors are interchangeable: detector i+1 may only start after detector i
 	MonFirst   bool    `json:"monitor_first"` // the monitor is started first (it may still be shut down later)
+	// EarlyClose: the monitor's shutdown is ordered before / around the start of serving: either Close() and later
+	// `go ListenAndServe()` (events "M-" then "M+"), or `go ListenAndServe()` followed at once by Close() without waiting
+	// for the listener (event "M+-").  The monitor is shut down in every such order: detectors must settle on failed.
+	EarlyClose bool `json:"early_close"`
 	// Relay: every detector reaches the monitor through its own harness-controlled TCP relay that adds LatMs of real
 	// latency to every answer and offers the fault events stall / release / cut (at most Faults stall-or-cut events per order).
 	Relay     bool  `json:"relay"`
@@ -79,6 +83,14 @@ func configs(thorough bool) []config {
 		config{Name: "relay/1det-1arch", NDet: 1, NArch: 1, Watch: []int{0}, IntervalMs: riv, TimeoutMs: rto, Ends: [][]int{allEnds}, NoShutdown: true,
 			Relay: true, LatMs: rlat, Faults: 1, Ks: []int{1, 3}},
 		config{Name: "relay/1det-1arch-shutdown", NDet: 1, NArch: 1, Watch: []int{0}, IntervalMs: riv, TimeoutMs: rto, Ends: [][]int{{endPanic}}, MonFirst: true,
+			Relay: true, LatMs: rlat, Faults: 1, Ks: []int{1}},
+	)
+	// monitor shutdown ordered before / around the start of serving (short RPC timeout: a listener that is up but never
+	// serves makes every probe wait for the timeout)
+	cs = append(cs,
+		config{Name: "1det-1arch-early-close", NDet: 1, NArch: 1, Watch: []int{0}, IntervalMs: iv, TimeoutMs: 200, Ends: [][]int{allEnds}, EarlyClose: true},
+		config{Name: "2det-1arch-early-close", NDet: 2, NArch: 1, Watch: []int{0, 0}, IntervalMs: iv, TimeoutMs: 200, Ends: [][]int{allEnds}, SymDet: true, EarlyClose: true},
+		config{Name: "relay/1det-1arch-early-close", NDet: 1, NArch: 1, Watch: []int{0}, IntervalMs: riv, TimeoutMs: rto, Ends: [][]int{{endNormal, endPanic}}, EarlyClose: true,
 			Relay: true, LatMs: rlat, Faults: 1, Ks: []int{1}},
 	)
 	if thorough {
@@ -128,6 +140,8 @@ var (
 	maxWaitPolls  atomic.Int64
 
 	monitorCloseRacePanics atomic.Int64
+	lateStartListening     atomic.Int64 // a monitor closed before/while starting nevertheless came up listening
+	lateStartReturned      atomic.Int64 // ... or its ListenAndServe returned first
 	relayStalls            atomic.Int64
 	relayLateReleases      atomic.Int64
 )
@@ -220,6 +234,9 @@ type world struct {
 	interval time.Duration
 	history  []string
 	faults   int
+
+	closedEarly bool // Close() ran before ListenAndServe was started
+	closeAtOnce bool // Close() runs right after `go ListenAndServe()`
 }
 
 type discard struct{ why string }
@@ -245,16 +262,30 @@ func (w *world) startMonitor() {
 		}()
 		w.monErr <- w.mon.ListenAndServe()
 	}()
+	if w.closeAtOnce {
+		// `go mon.ListenAndServe()` immediately followed by Close(), as a server that is closed right after creation does
+		_ = w.mon.Close()
+		w.monDown = true
+	}
 	deadline := time.Now().Add(envCap)
 	for {
 		select {
 		case err := <-w.monErr:
+			if w.monDown {
+				// closed before / while it started: ListenAndServe may legitimately have returned (with or without error)
+				lateStartReturned.Add(1)
+				w.monUp = true
+				return
+			}
 			w.discard(fmt.Sprintf("monitor could not listen on %s: %v", w.addr, err))
 		default:
 		}
 		conn, err := net.DialTimeout("tcp", w.addr, time.Second)
 		if err == nil {
 			conn.Close()
+			if w.monDown {
+				lateStartListening.Add(1)
+			}
 			break
 		}
 		if time.Now().After(deadline) {
@@ -263,6 +294,13 @@ func (w *world) startMonitor() {
 		time.Sleep(200 * time.Microsecond)
 	}
 	w.monUp = true
+}
+
+// closeEarly: Close() before ListenAndServe has been started at all.
+func (w *world) closeEarly() {
+	_ = w.mon.Close()
+	w.monDown = true
+	w.closedEarly = true
 }
 
 func (w *world) stopMonitor() {
@@ -401,6 +439,10 @@ func (w *world) required(i int) (want, cause string) {
 	switch {
 	case a.state == 2:
 		return "T", "archetype-ended-" + endName[a.endKind]
+	case w.monDown && w.closedEarly:
+		return "T", "monitor-closed-before-serving"
+	case w.monDown && w.closeAtOnce:
+		return "T", "monitor-closed-while-starting"
 	case w.monDown:
 		// the detector either holds a connection that was established before the shutdown or has to dial a closed address
 		conn := "detector-connects-after"
@@ -749,7 +791,15 @@ func bodyFor(cfgs []config) func(c *explore.Ctx) {
 				do   func()
 			}
 			var evs []ev
-			if !cfg.NoShutdown {
+			if cfg.EarlyClose {
+				switch {
+				case !w.monUp && !w.monDown:
+					evs = append(evs, ev{"M-", w.closeEarly})
+					evs = append(evs, ev{"M+-", func() { w.closeAtOnce = true; w.startMonitor() }})
+				case !w.monUp:
+					evs = append(evs, ev{"M+", w.startMonitor})
+				}
+			} else if !cfg.NoShutdown {
 				if !w.monUp {
 					evs = append(evs, ev{"M+", w.startMonitor})
 				} else if !w.monDown {
@@ -941,6 +991,7 @@ func TestCheck(t *testing.T) {
 			"accuracy (alive while running and reachable) is demanded only in configurations with a 5 s RPC timeout; with the 10-40 ms timeouts of the silent-monitor configurations only completeness is demanded",
 			"before the watched archetype has started, and while it runs under a monitor that has not been started yet, the statement requires nothing and nothing is demanded",
 			"relay configurations: the detector reaches the monitor through a harness TCP relay (5-20 ms real latency on answers); stall = answers held until k probes have timed out, release = held answers delivered (before or after the next probe), cut = connections closed; while stalled nothing is demanded, afterwards alive / failed as usual, alive also with the 30 ms RPC timeout",
+			"early-close configurations: Monitor.Close() before `go ListenAndServe()`, or right after it without waiting for the listener; the harness then waits until the address accepts a connection or ListenAndServe has returned, accepts both, and demands failed in both",
 			"operation-level orders only: goroutine interleavings inside net/rpc and mainLoop are not controlled",
 		}
 		cfgs := configs(env.Thorough())
@@ -1058,6 +1109,7 @@ func TestCheck(t *testing.T) {
 			"port_rebinds":                        portRetries.Load(),
 			"unconfirmed_candidates":              unconfirmed(viol),
 			"monitor_close_race_panics_recovered": monitorCloseRacePanics.Load(),
+			"early_close":                         map[string]any{"late_listener_came_up": lateStartListening.Load(), "listen_and_serve_returned_first": lateStartReturned.Load()},
 			"relay": map[string]any{"stalls": relayStalls.Load(), "releases_after_next_probe": relayLateReleases.Load(), "cuts": relayCuts.Load(),
 				"requests_forwarded": relayRequests.Load(), "answers_forwarded": relayAnswers.Load(), "answers_released_late": relayHeld.Load()},
 			"detector_checks":          checksTotal.Load(),
